@@ -162,8 +162,6 @@ func init() {
 	round3Hooks["C12"] = append(round3Hooks["C12"], runRingAdvanceModulo)
 	r4doc("C14", "C14.R9", "sibling agreement: a filtered publication is dropped only for subscribers without delta, on every delivery path")
 	round3Hooks["C14"] = append(round3Hooks["C14"], runFilteredDropKeepsDeltaException)
-	r4doc("C16", "C16.R6", "argument selection: a server tags filter is never passed where the client's filter is expected (and vice versa)")
-	round3Hooks["C16"] = append(round3Hooks["C16"], runTagsFilterArgumentRoles)
 	r4doc("C10", "C10.R5", "K1: a publication for a channel with sync state reaches the connection only after the in-subscribe flag was consulted")
 	round3Hooks["C10"] = append(round3Hooks["C10"], runSyncConsultsInSubscribe)
 	r4doc("C11", "C11.R6", "K2: once a codec is installed every frame goes through it, whatever its size")
@@ -191,6 +189,27 @@ func runRingAdvanceModulo(c *Ctx) {
 				}
 				if b, isB := st.Val.(*ssa.BinOp); isB && b.Op == token.REM {
 					ok = true
+				}
+				// an index helper of the same package whose every result is a `%` expression
+				if call, isCall := st.Val.(*ssa.Call); isCall {
+					if h := call.Call.StaticCallee(); h != nil && len(h.Blocks) > 0 && h.Pkg == f.Pkg {
+						all, nret := true, 0
+						EachInstr(h, func(in ssa.Instruction) {
+							if r, isRet := in.(*ssa.Return); isRet {
+								for _, rv := range retVals(r) {
+									nret++
+									if rb, isRB := rv.(*ssa.BinOp); !isRB || rb.Op != token.REM {
+										if _, isK := constIntOf(rv); !isK {
+											all = false
+										}
+									}
+								}
+							}
+						})
+						if all && nret > 0 {
+							ok = true
+						}
+					}
 				}
 				c.Check("C12.R7", st, "Queue."+idx+" is stored as a constant or modulo the ring length", ok,
 					"the ring length is initialCap·2^k for a caller-chosen initialCap: an advance that is not reduced with % (a bit mask, a plain sum) leaves the ring or jumps back, items are skipped and empty slots delivered ("+D(st.Val)+")")
@@ -712,11 +731,32 @@ func runStreamReadAlwaysChecked(c *Ctx) {
 		}
 		return false
 	}
+	// (the direction test may have been read into a local before the broker call: an `if` whose condition is
+	// computed from the Reverse field starts the chain as well)
+	startsChain := func(in ssa.Instruction) bool {
+		if startsTests(in) {
+			return true
+		}
+		ifi, ok := in.(*ssa.If)
+		if !ok {
+			return false
+		}
+		var loads []*ssa.UnOp
+		fieldLoadsIn(ifi.Cond, 0, map[ssa.Value]bool{}, &loads)
+		for _, ld := range loads {
+			if fa, ok := ld.X.(*ssa.FieldAddr); ok {
+				if _, f, ok := FieldOf(fa); ok && f == "Reverse" {
+					return true
+				}
+			}
+		}
+		return false
+	}
 	n := 0
 	for _, rd := range CallsIn(fn, false, isRead) {
 		n++
 		bad := PathQ{
-			Stop: startsTests,
+			Stop: startsChain,
 			Goal: isReturn,
 			EdgeCond: func(cond ssa.Value, outcome bool) bool {
 				// the read failed: the error is returned as it is
